@@ -87,6 +87,8 @@ int main(int argc, char** argv)
   bool const tsc = a["clock"] == "tsc";
   int const cycles = atoi(a["cycles"].c_str());
   bool const victim_is_main = a["victim"] != "thread";
+  bool const big = a["big"] == "1";
+  std::string const bigpayload(big ? 200000 : 0, 'x');
   quill::ClockSourceType const clk = tsc ? quill::ClockSourceType::Tsc : quill::ClockSourceType::System;
 
   quill::BackendOptions bo;
@@ -175,8 +177,12 @@ int main(int argc, char** argv)
     {
       for (; i < end; ++i)
       {
-        LOG_INFO(vlog, "V|{}", i);
+        // --big: the last statement before the action is larger than the thread's current queue buffer (128 KiB), so it
+        // goes into a freshly allocated buffer while the old one is (possibly) already drained
+        if (big && i == K - 1) LOG_INFO(vlog, "V|{}|{}", i, bigpayload);
+        else LOG_INFO(vlog, "V|{}", i);
         pr.rec("ret", i);
+        if (big && i == K - 2) usleep(3000); // let the backend drain the old buffer first
       }
     };
     log_until(K);
